@@ -15,7 +15,7 @@ import (
 	"github.com/ethereum/go-ethereum/rlp"
 
 	"github.com/Oneledger/protocol/action"
-	"github.com/Oneledger/protocol/action/eth"
+	acteth "github.com/Oneledger/protocol/action/eth"
 	ethchain "github.com/Oneledger/protocol/chains/ethereum"
 	"github.com/Oneledger/protocol/chains/ethereum/contract"
 	"github.com/Oneledger/protocol/data/keys"
@@ -92,12 +92,20 @@ func RawERC20LockTx(key *ecdsa.PrivateKey, nonce uint64, token, receiver ethcmn.
 
 // RawERC20RedeemTx: `redeem(amount, token)` on the LockRedeemERC contract.
 func RawERC20RedeemTx(key *ecdsa.PrivateKey, nonce uint64, token ethcmn.Address, amount *big.Int) []byte {
+	return RawERC20RedeemTxTo(key, nonce, harness.ERCContractAddr, token, amount)
+}
+
+// RawERC20RedeemTxTo is RawERC20RedeemTx sent to an arbitrary address. ERC20_REDEEM never looks at the
+// `to` of the embedded transaction, but the finality report that completes the tracker looks the token
+// up by that `to` (burnERC20Tokens) -- so a redeem addressed to the LockRedeemERC contract (the only form
+// that makes sense on Ethereum) can never be completed, one addressed to the TOKEN contract can.
+func RawERC20RedeemTxTo(key *ecdsa.PrivateKey, nonce uint64, to, token ethcmn.Address, amount *big.Int) []byte {
 	a := mustABI(contract.LockRedeemERCABI)
 	data, err := a.Pack("redeem", amount, token)
 	if err != nil {
 		panic(err)
 	}
-	return RawEthTx(key, nonce, harness.ERCContractAddr, big.NewInt(0), data)
+	return RawEthTx(key, nonce, to, big.NewInt(0), data)
 }
 
 // DecodeEthTx is the inverse of SignEthTx (panics on malformed input; test helper).
@@ -127,7 +135,7 @@ func EthLock(locker *harness.Account, rawEthTx []byte, memo string, signers ...*
 
 // EthLockAddr is EthLock with an arbitrary Locker address (signers must be given).
 func EthLockAddr(locker keys.Address, rawEthTx []byte, memo string, signers ...*harness.Account) *harness.TxSpec {
-	return harness.NewTx(action.ETH_LOCK, &eth.Lock{Locker: locker, ETHTxn: rawEthTx}, memo, signers...)
+	return harness.NewTx(action.ETH_LOCK, &acteth.Lock{Locker: locker, ETHTxn: rawEthTx}, memo, signers...)
 }
 
 // ERC20Lock builds ERC20_LOCK. Required signer: Locker.
@@ -137,7 +145,7 @@ func ERC20Lock(locker *harness.Account, rawEthTx []byte, memo string, signers ..
 
 // ERC20LockAddr is ERC20Lock with an arbitrary Locker address.
 func ERC20LockAddr(locker keys.Address, rawEthTx []byte, memo string, signers ...*harness.Account) *harness.TxSpec {
-	return harness.NewTx(action.ERC20_LOCK, &eth.ERC20Lock{Locker: locker, ETHTxn: rawEthTx}, memo, signers...)
+	return harness.NewTx(action.ERC20_LOCK, &acteth.ERC20Lock{Locker: locker, ETHTxn: rawEthTx}, memo, signers...)
 }
 
 // EthRedeem builds ETH_REDEEM. Required signer: Owner. `to` is the user's Ethereum address.
@@ -147,7 +155,7 @@ func EthRedeem(owner *harness.Account, to ethcmn.Address, rawEthTx []byte, memo 
 
 // EthRedeemAddr is EthRedeem with an arbitrary Owner address.
 func EthRedeemAddr(owner keys.Address, to ethcmn.Address, rawEthTx []byte, memo string, signers ...*harness.Account) *harness.TxSpec {
-	return harness.NewTx(action.ETH_REDEEM, &eth.Redeem{Owner: owner, To: to, ETHTxn: rawEthTx}, memo, signers...)
+	return harness.NewTx(action.ETH_REDEEM, &acteth.Redeem{Owner: owner, To: to, ETHTxn: rawEthTx}, memo, signers...)
 }
 
 // ERC20Redeem builds ERC20_REDEEM. Required signer: Owner. (The handler charges NO fee for this kind.)
@@ -157,7 +165,7 @@ func ERC20Redeem(owner *harness.Account, to ethcmn.Address, rawEthTx []byte, mem
 
 // ERC20RedeemAddr is ERC20Redeem with an arbitrary Owner address.
 func ERC20RedeemAddr(owner keys.Address, to ethcmn.Address, rawEthTx []byte, memo string, signers ...*harness.Account) *harness.TxSpec {
-	return harness.NewTx(action.ERC20_REDEEM, &eth.ERC20Redeem{Owner: owner, To: to, ETHTxn: rawEthTx}, memo, signers...)
+	return harness.NewTx(action.ERC20_REDEEM, &acteth.ERC20Redeem{Owner: owner, To: to, ETHTxn: rawEthTx}, memo, signers...)
 }
 
 // ReportFinality builds ETH_REPORT_FINALITY_MINT (normally produced by a witness's check-finality /
@@ -169,7 +177,7 @@ func ReportFinality(witness *harness.Account, tracker ethchain.TrackerName, lock
 
 // ReportFinalityAddr is ReportFinality with an arbitrary ValidatorAddress.
 func ReportFinalityAddr(validator keys.Address, tracker ethchain.TrackerName, locker keys.Address, voteIndex int64, success bool, memo string, signers ...*harness.Account) *harness.TxSpec {
-	return harness.NewTx(action.ETH_REPORT_FINALITY_MINT, &eth.ReportFinality{
+	return harness.NewTx(action.ETH_REPORT_FINALITY_MINT, &acteth.ReportFinality{
 		TrackerName:      tracker,
 		Locker:           locker,
 		ValidatorAddress: validator,
